@@ -171,6 +171,7 @@ def symbolic_steps(resname, position, neutral, steps):
             state["n"] = n
             math_q = type("M", (), {"pi": 3.141592653589793, "cos": staticmethod(lambda x, C=C: C), "sin": staticmethod(lambda x, Sn=Sn: Sn)})
             old = {a.name: [a.x, a.y, a.z] for a in res.atoms}
+            elsewhere = [(r_, a, (a.x, a.y, a.z)) for r_ in bm.residues if r_ is not res for a in r_.atoms]
             b = old[names[1]]
             mark = len(deb.cells.log)
             with patched((quatfit, "math", math_q), (quatfit, "normalize", norm), (utilities, "np", shims.NP), (utilities, "dihedral", lambda *a: 0.0), (debump, "util", utilities)):
@@ -203,14 +204,15 @@ def symbolic_steps(resname, position, neutral, steps):
                     U.append(a.name)
                 else:
                     M.append(a.name)
-            results.append(dict(F=F, M=M, U=U, names=names, axis_ok=axis_ok, cells=deb.cells.log[mark:]))
+            others = [f"{r_.name} {r_.res_seq}{r_.ins_code} {a.name}" for r_, a, o in elsewhere if not (a.x is o[0] and a.y is o[1] and a.z is o[2])]
+            results.append(dict(F=F, M=M, U=U, names=names, axis_ok=axis_ok, cells=deb.cells.log[mark:], others=others))
     return dict(steps=results, res=res, bm=bm, stats=stats, inconclusive=inconclusive)
 
 
 def classify(resname, position, anglenum, neutral=False, with_h=True):
     r = symbolic_steps(resname, position, neutral, [anglenum])
     st = r["steps"][0]
-    return dict(F=st["F"], M=st["M"], U=st["U"], res=r["res"], names=st["names"], cells=st["cells"], stats=r["stats"], bm=r["bm"], axis_ok=st["axis_ok"], inconclusive=r["inconclusive"])
+    return dict(F=st["F"], M=st["M"], U=st["U"], res=r["res"], names=st["names"], cells=st["cells"], stats=r["stats"], bm=r["bm"], axis_ok=st["axis_ok"], inconclusive=r["inconclusive"], others=st["others"])
 
 
 def _bonds(res):
@@ -280,6 +282,25 @@ def _angle_demo(resname, position, anglenum, neutral):
     return "; ".join(changed[:3])
 
 
+def _others_demo(resname, position, anglenum, neutral):
+    """concrete replay for S3(d): same set-up, the real set_dihedral_angle by +40 degrees on floats"""
+    from pdb2pqr import utilities
+
+    bm, res = _setup(resname, position, neutral)
+    deb = _new_debump(bm)
+    if getattr(deb, "cells", None) is None:
+        deb.cells = _CellsLog()
+    names = res.reference.dihedrals[anglenum].split()
+    before = {(id(r_), a.name): tuple(a.coords) for r_ in bm.residues for a in r_.atoms}
+    start = res.dihedrals[anglenum]
+    deb.set_dihedral_angle(res, anglenum, start + 40.0)
+    moved = [f"{r_.name} {r_.res_seq}{r_.ins_code} {a.name} by {float(utilities.distance(a.coords, before[(id(r_), a.name)])):.3f} A" for r_ in bm.residues if r_ is not res for a in r_.atoms if utilities.distance(a.coords, before[(id(r_), a.name)]) > 1e-6]
+    own = float(utilities.distance(res.get_atom(names[3]).coords, before[(id(res), names[3])]))
+    if moved or own < 1e-6:
+        return f"atoms of other residues moved: {moved[:3]}; {res.name} {names[3]} moved by {own:.3f} A"
+    return None
+
+
 def run_classification(resname, position, neutral=False, heavy_only=True, prop="C04", order=None, warm=False, twin=False):
     """lemma obligation for one residue at one chain position: all dihedrals."""
     ATOM_ORDER[0] = order
@@ -328,6 +349,15 @@ def _run_classification(resname, position, neutral=False, heavy_only=True, prop=
             else:
                 out["inconclusive"].append(f"{resname} {position} [{' '.join(names)}]: atoms {c['U']} are neither fixed nor rotated about the axis bond, but the concrete replay keeps all bond lengths")
         is_h = lambda n: res.get_atom(n).is_hydrogen
+        # S3(d): a torsion change of one residue writes no coordinate of any other residue, and it does turn the residue's own
+        # fourth torsion atom (otherwise the requested angle is not realised: the rotating group was taken from elsewhere)
+        if c["others"] or (names[3] not in c["M"] and names[3] not in c["U"]):
+            demo = _others_demo(resname, position, anglenum, neutral)
+            what = f"[{' '.join(names)}]: atoms of other residues written: {c['others'][:4]}; the torsion's own fourth atom {names[3]} {'turns' if names[3] in c['M'] else 'stays'}"
+            if demo:
+                out["violations"].append({"label": "torsion-change-confined-to-its-residue", "values": case, "note": "", "reproduced": True, "replay_detail": f"{what}; concrete replay: {demo}"})
+            else:
+                out["inconclusive"].append(f"{case}: {what}, but the concrete replay moves no atom of another residue and realises the angle")
         # S3(a): no backbone or terminal-cap atom moves
         if prop == "C04":
             for n in c["M"]:
